@@ -24,6 +24,15 @@ CHECKS = {
  "C10": ("Expression.evaluate vs an independent precedence-climbing reference with symbolic identifier values, decided by z3",
          "every well-formed token sequence up to a bounded length goes through the real tokenizer and shunting-yard evaluator with symbolic identifier values; equality with the reference evaluator's term, repeated evaluation with other contexts and fresh-object equality are discharged by z3; callers (#define, enum values, array lengths) driven with the same expressions",
          "5"),
+ "C07": ("library parse vs an independent reference parser for every array form on symbolic input, decided by z3",
+         "element type x length form x reader definitions are parsed from symbolic bytes by the real readers and by an independent reference parser (own expression evaluator); counts, order, values, stream position and the allowed EOF outcomes are asserted per path and discharged by z3; write refusal with engine-chosen list lengths",
+         "5"),
+ "C08": ("every cut point and every injected read fault of a symbolic input inside one path condition with the complete parse, decided by z3",
+         "for each definition the complete symbolic input and all of its prefixes are parsed in one path condition; 'error when the reference extent is cut, else value equal to the complete parse' is discharged by z3; read faults (short read / OSError at the j-th read, j an engine decision variable) and no-residue re-parses likewise",
+         "5"),
+ "C09": ("parse at a SYMBOLIC start offset p vs parse at 0; input kinds and call forms as differential obligations, decided by z3",
+         "the stream's start offset is a solver variable p (aligned), bytes before p are unconstrained symbols: value, recorded sizes and final position p+size are proved equal to the parse at offset 0 for every p; independence from trailing bytes; consecutive parses; bytes/bytearray/memoryview/stream x T(x)/read/reads/cs.read differential",
+         "5"),
 }
 
 LEVEL_NOTE = ("trusted: CPython 3.12 semantics of the natively executed parts; the call-site rewrite (validated: repository suite passes under it); "
